@@ -39,7 +39,8 @@ Open Scope Z_scope.
 Record uclass := mkU {
   u_digit : Z -> bool;      (* \d on code points >= 128 *)
   u_word  : Z -> bool;      (* \w *)
-  u_space : Z -> bool }.    (* \s *)
+  u_space : Z -> bool;      (* \s *)
+  u_dval  : Z -> Z }.       (* decimal value of a \d code point >= 128 *)
 
 Definition between (lo hi c : Z) : bool := (lo <=? c) && (c <=? hi).
 Definition ascii_digit (c : Z) : bool := between 48 57 c.
@@ -348,6 +349,58 @@ Fixpoint named_upto (gs : list (nat * option (list Z))) (n : nat) (i : nat)
 Definition group_names (r : re) (n : nat) : list (list Z * nat) :=
   named_upto (groups_of r) n 0.
 
+(* -------------------------------------------------------- surface syntax *)
+(* surface syntax: what the parser reads; groups are not numbered yet and
+   quantifiers are kept.  A non-capturing group leaves no node. *)
+Inductive sre :=
+  | SEps
+  | SCls (neg : bool) (items : list citem)
+  | SSeq (a b : sre)
+  | SAlt (a b : sre)
+  | SStar (a : sre)
+  | SPlus (a : sre)
+  | SOpt (a : sre)
+  | SRep (a : sre) (lo : nat) (hi : option nat)
+  | SGroup (name : option (list Z)) (a : sre)
+  | SEndZ
+  | SEol.
+
+Fixpoint s_can_empty (a : sre) : bool :=
+  match a with
+  | SEps => true
+  | SCls _ _ => false
+  | SSeq a b => s_can_empty a && s_can_empty b
+  | SAlt a b => s_can_empty a || s_can_empty b
+  | SStar _ => true
+  | SPlus a => s_can_empty a
+  | SOpt _ => true
+  | SRep a lo _ => Nat.eqb lo 0 || s_can_empty a
+  | SGroup _ a => s_can_empty a
+  | SEndZ => true
+  | SEol => true
+  end.
+
+(* numbering of the groups (by opening parenthesis, from n) and expansion
+   of the quantifiers; returns the next free number *)
+Fixpoint lower (a : sre) (n : nat) : re * nat :=
+  match a with
+  | SEps => (Eps, n)
+  | SCls neg items => (Cls neg items, n)
+  | SSeq a b =>
+      let (a', n1) := lower a n in
+      let (b', n2) := lower b n1 in (Seq a' b', n2)
+  | SAlt a b =>
+      let (a', n1) := lower a n in
+      let (b', n2) := lower b n1 in (Alt a' b', n2)
+  | SStar a => let (a', n1) := lower a n in (Star a', n1)
+  | SPlus a => let (a', n1) := lower a n in (Plus a', n1)
+  | SOpt a => let (a', n1) := lower a n in (Opt a', n1)
+  | SRep a lo hi => let (a', n1) := lower a n in (Repeat a' lo hi, n1)
+  | SGroup nm a => let (a', n1) := lower a (S n) in (Group n nm a', n1)
+  | SEndZ => (EndZ, n)
+  | SEol => (Eol, n)
+  end.
+
 (* ---------------------------------------------------------------- parser *)
 Definition is_meta (c : Z) : bool :=
   (c =? 36) || (c =? 40) || (c =? 41) || (c =? 42) || (c =? 43) ||
@@ -366,15 +419,15 @@ Definition class_escape (x : Z) : option citem :=
   else None.
 
 (* after a backslash, outside a class *)
-Definition p_escape (t : list Z) : option (re * list Z) :=
+Definition p_escape (t : list Z) : option (sre * list Z) :=
   match t with
   | [] => None
   | x :: t' =>
       match class_escape x with
-      | Some it => Some (Cls false [it], t')
+      | Some it => Some (SCls false [it], t')
       | None =>
-          if x =? 90 then Some (EndZ, t')
-          else if is_punct x then Some (Chr x, t')
+          if x =? 90 then Some (SEndZ, t')
+          else if is_punct x then Some (SCls false [IChr x], t')
           else None
       end
   end.
@@ -438,7 +491,7 @@ Fixpoint p_items (f : nat) (t : list Z) (acc : list citem)
   end.
 
 (* after "[" *)
-Definition p_class (t : list Z) : option (re * list Z) :=
+Definition p_class (t : list Z) : option (bool * list citem * list Z) :=
   match t with
   | [] => None
   | c :: t' =>
@@ -449,7 +502,7 @@ Definition p_class (t : list Z) : option (re * list Z) :=
       | d :: _ =>
           if d =? 93 then None            (* "[]..." : literal "]", not modelled *)
           else match p_items (S (length body)) body [] with
-               | Some (items, rest) => Some (Cls neg items, rest)
+               | Some (items, rest) => Some (neg, items, rest)
                | None => None
                end
       end
@@ -503,9 +556,9 @@ Definition is_quant_char (c : Z) : bool :=
   (c =? 42) || (c =? 43) || (c =? 63) || (c =? 123).
 
 (* optional quantifier after the atom a *)
-Definition p_quant (a : re) (t : list Z) : option (re * list Z) :=
-  let finish (q : re) (t1 : list Z) : option (re * list Z) :=
-    if can_empty a then None
+Definition p_quant (a : sre) (t : list Z) : option (sre * list Z) :=
+  let finish (q : sre) (t1 : list Z) : option (sre * list Z) :=
+    if s_can_empty a then None
     else match t1 with
          | c :: _ => if is_quant_char c then None else Some (q, t1)
          | [] => Some (q, t1)
@@ -513,12 +566,12 @@ Definition p_quant (a : re) (t : list Z) : option (re * list Z) :=
   match t with
   | [] => Some (a, t)
   | c :: t1 =>
-      if c =? 42 then finish (Star a) t1
-      else if c =? 43 then finish (Plus a) t1
-      else if c =? 63 then finish (Opt a) t1
+      if c =? 42 then finish (SStar a) t1
+      else if c =? 43 then finish (SPlus a) t1
+      else if c =? 63 then finish (SOpt a) t1
       else if c =? 123 then
         match p_braces t1 with
-        | Some (lo, hi, t2) => finish (Repeat a lo hi) t2
+        | Some (lo, hi, t2) => finish (SRep a lo hi) t2
         | None => None
         end
       else Some (a, t)
@@ -573,40 +626,53 @@ Definition at_stop (t : list Z) : bool :=
   | c :: _ => (c =? 41) || (c =? 124)
   end.
 
-(* result: (expression, unread text, next group number) *)
-Definition pres := option (re * list Z * nat).
+(* atoms that need no recursion: class, escape, ".", "$", literal *)
+Definition p_simple (c : Z) (t1 : list Z) : option (sre * list Z) :=
+  if c =? 91 then
+    match p_class t1 with
+    | Some (neg, items, t2) => Some (SCls neg items, t2)
+    | None => None
+    end
+  else if c =? 92 then p_escape t1
+  else if c =? 46 then Some (SCls false [IAny], t1)
+  else if c =? 36 then Some (SEol, t1)
+  else if is_meta c then None
+  else Some (SCls false [IChr c], t1).
 
-Fixpoint p_alt (f : nat) (t : list Z) (n : nat) {struct f} : pres :=
+(* result: (expression, unread text) *)
+Definition pres := option (sre * list Z).
+
+Fixpoint p_alt (f : nat) (t : list Z) {struct f} : pres :=
   match f with
   | O => None
   | S f' =>
-      match p_seq f' t n with
-      | Some (a, t1, n1) =>
+      match p_seq f' t with
+      | Some (a, t1) =>
           match t1 with
           | c :: t2 =>
               if c =? 124 then
-                match p_alt f' t2 n1 with
-                | Some (b, t3, n3) => Some (Alt a b, t3, n3)
+                match p_alt f' t2 with
+                | Some (b, t3) => Some (SAlt a b, t3)
                 | None => None
                 end
-              else Some (a, t1, n1)
-          | [] => Some (a, t1, n1)
+              else Some (a, t1)
+          | [] => Some (a, t1)
           end
       | None => None
       end
   end
-with p_seq (f : nat) (t : list Z) (n : nat) {struct f} : pres :=
+with p_seq (f : nat) (t : list Z) {struct f} : pres :=
   match f with
   | O => None
   | S f' =>
-      if at_stop t then Some (Eps, t, n)
+      if at_stop t then Some (SEps, t)
       else
-        match p_atom f' t n with
-        | Some (a, t1, n1) =>
+        match p_atom f' t with
+        | Some (a, t1) =>
             match p_quant a t1 with
             | Some (q, t2) =>
-                match p_seq f' t2 n1 with
-                | Some (b, t3, n3) => Some (Seq q b, t3, n3)
+                match p_seq f' t2 with
+                | Some (b, t3) => Some (SSeq q b, t3)
                 | None => None
                 end
             | None => None
@@ -614,7 +680,7 @@ with p_seq (f : nat) (t : list Z) (n : nat) {struct f} : pres :=
         | None => None
         end
   end
-with p_atom (f : nat) (t : list Z) (n : nat) {struct f} : pres :=
+with p_atom (f : nat) (t : list Z) {struct f} : pres :=
   match f with
   | O => None
   | S f' =>
@@ -623,45 +689,35 @@ with p_atom (f : nat) (t : list Z) (n : nat) {struct f} : pres :=
       | c :: t1 =>
           if c =? 40 then
             match p_ghead t1 with
-            | Some (GCap nm, t2) =>
-                match p_alt f' t2 (S n) with
-                | Some (a, t3, n3) =>
+            | Some (g, t2) =>
+                match p_alt f' t2 with
+                | Some (a, t3) =>
                     match t3 with
                     | d :: t4 =>
-                        if d =? 41 then Some (Group n nm a, t4, n3) else None
+                        if d =? 41 then
+                          Some (match g with
+                                | GCap nm => SGroup nm a
+                                | GNon => a
+                                end, t4)
+                        else None
                     | [] => None
                     end
                 | None => None
                 end
-            | Some (GNon, t2) =>
-                match p_alt f' t2 n with
-                | Some (a, t3, n3) =>
-                    match t3 with
-                    | d :: t4 => if d =? 41 then Some (a, t4, n3) else None
-                    | [] => None
-                    end
-                | None => None
-                end
             | None => None
             end
-          else if c =? 91 then
-            match p_class t1 with
-            | Some (r, t2) => Some (r, t2, n)
-            | None => None
-            end
-          else if c =? 92 then
-            match p_escape t1 with
-            | Some (r, t2) => Some (r, t2, n)
-            | None => None
-            end
-          else if c =? 46 then Some (Cls false [IAny], t1, n)
-          else if c =? 36 then Some (Eol, t1, n)
-          else if is_meta c then None
-          else Some (Chr c, t1, n)
+          else p_simple c t1
       end
   end.
 
 Definition parse_fuel (t : list Z) : nat := (3 * length t + 3)%nat.
+
+(* the whole text must be read *)
+Definition parse_sre (t : list Z) : option sre :=
+  match p_alt (parse_fuel t) t with
+  | Some (a, []) => Some a
+  | _ => None
+  end.
 
 (* no name is given to two different groups (re.error in CPython) *)
 Fixpoint names_ok (gs : list (nat * option (list Z))) : bool :=
@@ -675,10 +731,14 @@ Fixpoint names_ok (gs : list (nat * option (list Z))) : bool :=
   | (_, None) :: gs' => names_ok gs'
   end.
 
+Definition finish_regex (a : sre) : option (re * nat) :=
+  let (r, n) := lower a 0 in
+  if names_ok (groups_of r) then Some (r, n) else None.
+
 (* re.compile(text, re.U) on the modelled subset: (expression, number of
    groups); None = outside the subset (or a re.error) *)
 Definition parse_regex (t : list Z) : option (re * nat) :=
-  match p_alt (parse_fuel t) t 0 with
-  | Some (r, [], n) => if names_ok (groups_of r) then Some (r, n) else None
-  | _ => None
+  match parse_sre t with
+  | Some a => finish_regex a
+  | None => None
   end.
